@@ -719,12 +719,30 @@ fn vanishing_repetition_exposes_tree(fam: &transform::Family) -> bool {
     };
     let wi = static_info(&whole);
     let wn = wi.static_first.len() + wi.static_last.len();
-    fam.parts.iter().any(|e| {
-        parse::parse(e).map_or(false, |a| {
-            let i = static_info(&a);
-            i.static_first.len() + i.static_last.len() > wn
+    // (Counting misses the case in which the whole has another tree wildcard at its edge — inside
+    // the final repetition itself — so the shape is also looked for directly: a tree wildcard
+    // written next to a repetition that may vanish.)
+    fn tree_next_to_optional_repetition(seq: &Seq) -> bool {
+        let adjacent = seq.toks.windows(2).any(|w| {
+            matches!(
+                (&w[0].node, &w[1].node),
+                (Node::Tree { .. }, Node::Rep { lo: 0, .. }) | (Node::Rep { lo: 0, .. }, Node::Tree { .. })
+            )
+        });
+        adjacent
+            || seq.toks.iter().any(|t| match &t.node {
+                Node::Rep { body, .. } => tree_next_to_optional_repetition(body),
+                Node::Alt(bs) => bs.iter().any(tree_next_to_optional_repetition),
+                _ => false,
+            })
+    }
+    tree_next_to_optional_repetition(&whole.seq)
+        || fam.parts.iter().any(|e| {
+            parse::parse(e).map_or(false, |a| {
+                let i = static_info(&a);
+                i.static_first.len() + i.static_last.len() > wn
+            })
         })
-    })
 }
 
 /// A negation of an (empty) walk by the pattern: the hook `verif_residue` tells whether the
@@ -838,9 +856,6 @@ fn c07(case: &Case, ctx: &Ctx, rpt: &mut Report, rng: &mut Rng, stream: &ExprStr
                                     {
                                         Some("tree-wildcard-at-edge-of-repetition-body-encoded-as-expression-edge")
                                     }
-                                    else if fam.kind == "repetition-is-iteration" && un && !wn && vanishing_repetition_exposes_tree(&fam) {
-                                        Some("tree-wildcard-next-to-vanishing-repetition-not-encoded-as-edge")
-                                    }
                                     else if {
                                         let matching: Vec<&str> = if wn {
                                             vec![fam.whole.as_str()]
@@ -856,6 +871,9 @@ fn c07(case: &Case, ctx: &Ctx, rpt: &mut Report, rng: &mut Rng, stream: &ExprStr
                                         only_rooted_quirk_explains(&matching, p)
                                     } {
                                         Some("rooted-leading-tree-matches-partial-component")
+                                    }
+                                    else if fam.kind == "repetition-is-iteration" && un && !wn && vanishing_repetition_exposes_tree(&fam) {
+                                        Some("tree-wildcard-next-to-vanishing-repetition-not-encoded-as-edge")
                                     }
                                     else {
                                         None
@@ -894,9 +912,6 @@ fn c07(case: &Case, ctx: &Ctx, rpt: &mut Report, rng: &mut Rng, stream: &ExprStr
                             {
                                 Some("tree-wildcard-at-edge-of-repetition-body-encoded-as-expression-edge")
                             }
-                            else if fam.kind == "repetition-is-iteration" && u && !w && vanishing_repetition_exposes_tree(&fam) {
-                                Some("tree-wildcard-next-to-vanishing-repetition-not-encoded-as-edge")
-                            }
                             else if {
                                 let matching: Vec<&str> = if w {
                                     vec![fam.whole.as_str()]
@@ -912,6 +927,9 @@ fn c07(case: &Case, ctx: &Ctx, rpt: &mut Report, rng: &mut Rng, stream: &ExprStr
                                 only_rooted_quirk_explains(&matching, p)
                             } {
                                 Some("rooted-leading-tree-matches-partial-component")
+                            }
+                            else if fam.kind == "repetition-is-iteration" && u && !w && vanishing_repetition_exposes_tree(&fam) {
+                                Some("tree-wildcard-next-to-vanishing-repetition-not-encoded-as-edge")
                             }
                             else {
                                 None
